@@ -68,6 +68,7 @@ class World(object):
         self.eperm = {FOREIGN_EPERM}
         self.calls = 0
         self.crash_at = None          # (n, when)
+        self.snapshot = None
         self.trace = []
 
     def syscall(self, name, real, a, kw):
@@ -87,12 +88,17 @@ class World(object):
         if self.crash_at and self.crash_at[0] == n:
             when = self.crash_at[1]
             if when == "before":
+                self.snapshot = listing(self.dir)
                 raise Crash("before %s" % name)
             if when == "partial" and name == "write":
                 fd, data = a
                 os.write(fd, data[:max(1, len(data) // 2)])
+                self.snapshot = listing(self.dir)
                 raise Crash("partial write")
             r = real(*a, **kw)
+            # what is on disk at the instant the process dies (buffered data not yet written is lost with the process;
+            # unwinding the exception in this harness must not be allowed to flush it into the verdict)
+            self.snapshot = listing(self.dir)
             raise Crash("after %s" % name)
         return real(*a, **kw)
 
@@ -339,11 +345,14 @@ def run_crash(case, pf, world, d):
         raised = e
     vio = []
     world.crash_at = None
-    try:
-        with open(path, "rb") as f:
-            now = f.read().decode("latin-1")
-    except FileNotFoundError:
-        now = None
+    if crashed and world.snapshot is not None:
+        now = world.snapshot.get("gunicorn.pid")
+    else:
+        try:
+            with open(path, "rb") as f:
+                now = f.read().decode("latin-1")
+        except FileNotFoundError:
+            now = None
     allowed = [None, prev, "%d\n" % me]
     if now not in allowed:
         vio.append(Violation("atomic-content", "C17/partial-or-foreign-content-after-crash:%s" % case["op"],
